@@ -161,7 +161,9 @@ def own_read(text):
         content = ln[7:]
         chunks = 1
         classes = []
-        while content.endswith("-") and k + 1 < len(body) - 1 and len(ln) == 79:
+        # any `M  V30` line ending in a dash is continued (atom, bond and block lines never end
+        # in a dash themselves), whatever width the writer chose to wrap at
+        while content.endswith("-") and k + 1 < len(body) - 1:
             nxt = body[k + 1]
             if not nxt.startswith("M  V30 "):
                 raise Violation("skeleton", "continuation line does not start with 'M  V30 '")
